@@ -17,7 +17,16 @@ META = {
     "note": ("Trusted: Lean kernel (propext, Classical.choice, Quot.sound); extract/c01.go; harness/c01.go; the modelling of os.File "
              "as a byte string (append, in-place 64-byte header rewrite); snappy and CRC-32 are parameters of every theorem (the "
              "driver's executable snappy decoder / CRC-32 are differential-tested on every real block). Explicit physical bounds: "
-             "payload and block size <= 1 GiB, swamp name < 65536 bytes (C29 covers longer names)."),
+             "payload and block size <= 1 GiB, swamp name < 65536 bytes (C29 covers longer names). Chronicler layer: entryOf/chronWrite "
+             "(Hv/Storage/ChronWrite.lean) model Write's INSERT/UPDATE/DELETE choice, insert_update_equivalent proves the choice is "
+             "replay-irrelevant, Holds.apiRejects demands that a refused treasure is reported (currently violated: recorded finding). "
+             "Exports: inserts_roundtrip (fresh file from distinct-key encodable INSERTs loads back exactly, with its name) is the "
+             "byte-level discharge of C23's V2.Lawful on keys of 1..65535 bytes and names < 2^16. Relation to the block-granular "
+             "model Hv.BlockStore (C02/C03/C25): its assumption (A1) 'the payload written for a header decodes to that block's "
+             "entries' is Hv.Storage.readNextBlock_encodeBlock, which needs GoodBlock (every entry Encodable, < 65536 entries, "
+             "< 2 GiB) — i.e. the block model's results hold on acknowledged writes only because WriteEntry now rejects "
+             "unencodable keys and Add flushes at 65535 entries (it hard-codes '>=' flush, no count flush, accepts every key); its "
+             "(A2) 'anything else fails the checksum' is readNextBlock_crc_mismatch, true up to the 2^-32 CRC residual."),
     "design_ref": "§8 C01",
 }
 
